@@ -65,6 +65,17 @@ def run(tier, seed):
             except Exception as e:  # noqa: BLE001
                 ok, obs = False, f"raises {type(e).__name__}: {e}"
             num.case((di, legacy), ok, observed=obs, inputs={"declaration": text, "legacy_parser": legacy})
+        # a member name that is also a global constant (defined earlier) still denotes the member inside the declaration
+        for prefix in ("#define A 55\n#define B 66\n#define C 77\n", "enum { B = 40, C = 41, Z = 42 };\n"):
+            cs = cstruct()
+            text = prefix + render(kind, typ, members, "T")
+            try:
+                cs.load(text)
+                got = {k: int(v.value) for k, v in cs.T.__members__.items()}
+                ok, obs = got == want, f"{got} expected {want}"
+            except Exception as e:  # noqa: BLE001
+                ok, obs = False, f"raises {type(e).__name__}: {e}"
+            num.case((di, "shadowed-by-constant", prefix[:8]), ok, observed=obs, inputs={"declaration": text})
         cs = cstruct()
         cs.load(render(kind, typ, members, "T") + f" struct S {{ T a; T b[2]; T c[]; }}; struct BF {{ T x:3; T y:5; }};")
         T = cs.T
